@@ -26,7 +26,7 @@ RULE = ('each run: a seeded netlist over the whole catalogue (combinational + se
 REAL = ['py4hw.base.Wire.put/prepare/settle', 'all library primitives', 'py4hw.logic.simulation.Waveform/Sequence/RandomValue']
 STUB = ['stimulus', 'monitoring listener']
 ASSUMPTIONS = ['observation = Wire.value of every wire reachable from the HWSystem (wires created by any Logic, wires attached to any port)']
-PROBES = ['bidir_clocked', 'double_prepare_block', 'adv_constant', 'adv_reset_value', 'adv_sequence', 'adv_poke', 'listener_observation', 'waveform_samples', 'random_value']
+PROBES = ['adv_constant_reassigned', 'bidir_clocked', 'double_prepare_block', 'adv_constant', 'adv_reset_value', 'adv_sequence', 'adv_poke', 'listener_observation', 'waveform_samples', 'random_value']
 
 
 def adversarial(rng, w):
@@ -69,7 +69,12 @@ def gen(rs, tier, index):
                 vec.append(adversarial(sr, i['w']))
             else:
                 vec.append(netlist.gen_vector(sr, [i])[0])
-        steps.append({'vec': vec, 'n': sr.choice([1, 1, 2, 4]), 'extra_settle': sr.random() < 0.2})
+        step = {'vec': vec, 'n': sr.choice([1, 1, 2, 4]), 'extra_settle': sr.random() < 0.2}
+        consts = [nd for nd in d['nodes'] if nd['kind'] == 'Constant' and not nd.get('guard')]
+        if consts and sr.random() < 0.3:
+            nd = sr.choice(consts)
+            step['const'] = [nd['id'], adversarial(sr, nd['ow'][0])]      # Constant.value re-assigned between clk calls
+        steps.append(step)
     order = list(d['order'])
     rng.shuffle(order)
     return {'design': d, 'order': order, 'steps': steps, 'adv': adv}
@@ -116,6 +121,9 @@ def run(scn, log, st):
         for i, v in zip(d['inputs'], vec):
             if v < 0 or v >> i['w']:
                 st.probe('adv_poke')
+        if step.get('const') and step['const'][0] in b.objs:
+            b.objs[step['const'][0]].value = step['const'][1]
+            st.probe('adv_constant_reassigned')
         b.set_inputs(vec)
         seams.check_wire_ranges(b.hw, 'after put', si)
         if step['extra_settle']:
